@@ -39,6 +39,11 @@ THEOREMS = [
     "OllamaVerif.C08.link_requires_blob",
     "OllamaVerif.C08.F8zero_link_to_failed_put",
     "OllamaVerif.C08.link_requires_blob_fixed",
+    "OllamaVerif.C08.concurrent_good_writers_safe",
+    "OllamaVerif.C08.F9_failing_cowriter_breaks_trust",
+    "OllamaVerif.C08.good_writers_from_longer_file_transiently_unsafe",
+    "OllamaVerif.C08.F10_chunk_holes_present_with_full_size",
+    "OllamaVerif.C08.F8_relink_same_size_keeps_old",
 ]
 OVERLAY = {"server/internal/cache/blob/zz_verif_c08_test.go": "server_internal_cache_blob/zz_verif_c08_test.go"}
 PKG = "./server/internal/cache/blob/"
